@@ -28,8 +28,11 @@ def section(notes, pat):
     return (notes[m.start():m.end()] + (rest[: stop.start()] if stop else rest)).strip()[:2500]
 
 
-for d in sorted(glob.glob(f'{V}/seeded/C*/mut*')):
+shard = os.environ.get('SHARD')  # 'i/n': process every n-th seed starting at i (run several instances side by side)
+for idx, d in enumerate(sorted(glob.glob(f'{V}/seeded/C*/mut*'))):
     if flt and flt not in d:
+        continue
+    if shard and idx % int(shard.split('/')[1]) != int(shard.split('/')[0]):
         continue
     if os.environ.get('SKIP_DONE') and os.path.exists(f'{d}/meta.json'):
         continue
@@ -52,7 +55,7 @@ for d in sorted(glob.glob(f'{V}/seeded/C*/mut*')):
             m = re.search(r'clause=(\S+)', ln)
             clauses.setdefault(m.group(1) if m else '?', re.sub(r'replay=\S+ ', '', ln)[:400])
         more = re.findall(r'(\d+) more violation\(s\) of clause (\S+)', c.stdout)
-        tests = sh(f'NP=10 {V}/tools/basecmp.py {W} ' + ' '.join(CORE))
+        tests = sh(f'NP={os.environ.get("NP", "10")} {V}/tools/basecmp.py {W} ' + ' '.join(CORE))
         notes = open(f'{d}/notes.md').read() if os.path.exists(f'{d}/notes.md') else ''
         title = (notes.strip().splitlines() or [''])[0].lstrip('# ').strip()
         meta = dict(
